@@ -5,9 +5,14 @@ Under contract:
       device can deliver, termination in terms of bytes consumed (loop contract, decreases);
   bmp reader::apply and scanline_reader::read_header — the row-pitch computation: for every width and every bit depth the decoders accept,
       the pitch is a multiple of 4 and at least the number of bytes the row decoders consume per row.
-Bounded stand-in (native, ASan/UBSan, real read_image through std::istringstream): a window of crafted PNM and BMP byte sequences.
+  bmp reader::read_palette_image_rle, copy_row_if_needed, reader_backend::read_palette, file_stream_device / istream_device read(T(&)[N])
+      — see specs/bmp_rle.py: every row-buffer write, palette read and row copy in bounds for every byte sequence, termination of the
+      command loop in the bytes remaining, short reads reported.
+Bounded stand-ins (native, ASan/UBSan, real read_image / read_view through std::istringstream): a window of crafted PNM and BMP byte
+sequences; all RLE4 / RLE8 command sequences of length 2 (3 in the thorough tier) over a command alphabet.
 """
 from vclib.core import X, Check, Unit
+from specs import bmp_rle
 
 PNM = 'boost/gil/extension/io/pnm/detail/read.hpp'
 BMP = 'boost/gil/extension/io/bmp/detail/read.hpp'
@@ -122,8 +127,9 @@ UNITS = [
          checks=[Check('pitch_read', 'h_pitch_read', enforce='pitch_read', timeout=600), Check('pitch_scanline', 'h_pitch_scanline', enforce='pitch_scanline', timeout=600)],
          preconditions=['BMP width 0..2^24; bit depth one of 1, 4, 8, 15, 16, 24, 32 (the depths the decoder dispatches on)'],
          assumed=['bytes consumed per row by read_palette_image / read_data_15 / read_data: ceil(w/8), ceil(w/2), w, 2w, 2w, 3w, 4w (read off the row decoders; not extracted)']),
+    *bmp_rle.UNITS,
     Unit('decoders_native', 'C11', '/* bounded native stand-in, no extracted body */\n', checks=[Check('crafted_files', 'none', engine='N', native=NATIVE, timeout=1800, flags=['sanitize'])]),
 ]
 META = dict(not_covered=['PNG, JPEG, TIFF (external C libraries, setjmp/longjmp), TARGA, the template drivers reader_base::init_image / read_image and the file system',
-                         'BMP RLE4/RLE8 state machine, palette indexing, header field validation: only the bounded native window exercises them',
+                         'BMP header field validation (read_header: negative width, height == INT_MIN), read_palette_image / read_data_15 / read_data row loops, targa RLE: only the bounded native windows exercise them',
                          'time proportional to input beyond the decreases clause of the PNM token loop'])
